@@ -86,16 +86,6 @@ def expand_includes(text, root):
     import os
     out = []
     for ln in text.split("\n"):
-        m = re.match(r"^\s*//!assumed\s+(\S+)\s+(\S+)\s+sha=(\S+)\s*$", ln)
-        if m and region is None:
-            # the hand-written contract that follows describes a repository function that is not under contract anywhere: its text is
-            # fingerprinted, and a change of it makes the unit undecided instead of leaving a stale assumption in place
-            if cur:
-                segs.append(("text", "\n".join(cur), start))
-                cur = []
-            segs.append(("assumed", m.group(1), m.group(2), m.group(3)))
-            start = n + 1
-            continue
         m = re.match(r"^\s*//!include\s+(\S+)\s*$", ln)
         if m:
             with open(os.path.join(root, m.group(1)), encoding="utf-8") as fh:
@@ -135,6 +125,16 @@ def parse_unit(text, fname):
                 segs.append(("text", "\n".join(cur), start))
                 cur = []
             segs.append(("stub", m.group(1), m.group(2)))
+            start = n + 1
+            continue
+        m = re.match(r"^\s*//!assumed\s+(\S+)\s+(\S+)\s+sha=(\S+)\s*$", ln)
+        if m and region is None:
+            # the hand-written contract that follows describes a repository function that is not under contract anywhere: its text is
+            # fingerprinted, and a change of it makes the unit undecided instead of leaving a stale assumption in place
+            if cur:
+                segs.append(("text", "\n".join(cur), start))
+                cur = []
+            segs.append(("assumed", m.group(1), m.group(2), m.group(3)))
             start = n + 1
             continue
         m = re.match(r"^\s*//!include\s+(\S+)\s*$", ln)
